@@ -81,6 +81,24 @@ mod verif_c11 {
         kani::cover!(true, "reachable");
     }
 
+    // operands that do NOT start on an 8-byte boundary: the slices begin OFFD resp. OFFS bytes into their heap objects
+    // (the end of each object is still exact, so a read or write past the end is a pointer-check failure)
+    fn check_add_misaligned<const LEN: usize, const TOTD: usize, const TOTS: usize>(kernel: fn(&mut [u8], &[u8])) {
+        let mut d: Box<[u8; TOTD]> = Box::new(kani::any());
+        let s: Box<[u8; TOTS]> = Box::new(kani::any());
+        let d0 = *d;
+        let (offd, offs) = (TOTD - LEN, TOTS - LEN);
+        kernel(&mut d[offd..], &s[offs..]);
+        let i: usize = kani::any();
+        kani::assume(i < TOTD);
+        if i < offd {
+            assert!(d[i] == d0[i], "C11_ADD_ASSIGN_FRAME_BEFORE_SLICE");
+        } else {
+            assert!(d[i] == d0[i] ^ s[offs + (i - offd)], "C11_ADD_ASSIGN_MISALIGNED");
+        }
+        kani::cover!(i == TOTD - 1, "reachable");
+    }
+
     fn check_bin<const LEN: usize, const WORDS: usize>(kernel: fn(&mut [u8], &BinaryOctetVec, &Octet), nonzero_scalar: bool) {
         let mut d: Box<[u8; LEN]> = Box::new(kani::any());
         let d0 = *d;
